@@ -96,6 +96,9 @@ func c11SR(c *core.Ctx) {
 		c.Violate("prepare", model, err.Error())
 		return
 	}
+	if c.R.Bool(0.25) {
+		CheckEmptyRun(c, model, run.Sets, out.States)
+	}
 	paths := routing.VerifRoutingPathCounts()
 	for i, n := range paths {
 		if n > 0 {
